@@ -304,6 +304,8 @@ type Program struct {
 	Note string            `json:"note,omitempty"`
 	// ErrName: a package-level identifier named err etc. declared in pkg 0.
 	PkgVars []string `json:"pkg_vars,omitempty"` // raw declarations put in pkg 0's decl file
+	// PkgIdents: identifiers declared by PkgVars (so the renderer avoids them as import names).
+	PkgIdents []string `json:"pkg_idents,omitempty"`
 	// RejectOK: rejection with a diagnostic is as acceptable as compilable output.
 	RejectOK bool `json:"reject_ok,omitempty"`
 }
@@ -435,5 +437,6 @@ func (p *Program) Clone() *Program {
 		}
 	}
 	q.PkgVars = append([]string(nil), p.PkgVars...)
+	q.PkgIdents = append([]string(nil), p.PkgIdents...)
 	return q
 }
